@@ -9,7 +9,7 @@ open Tgt
 
 /-! ### Point-wise meaning of a call -/
 
-/-- What a call writes (documented meaning) on a target that reports box `T`, as a partial map:
+/-- What a call writes (documented meaning) on a target that reports box `T`, as a point-wise (optional) map:
 the colour last written to `p` by this call, `none` if the call does not touch `p`. Not yet
 clipped to `T` (only `clear` depends on `T`). -/
 def Call.sem (T : Rect) (c : Call) (p : Pt) : Option Color := lastWrite (c.lowerNative T) p
@@ -51,7 +51,7 @@ structure Xf where
   d : Pt
   f : Color → Color
 
-/-- Action on partial pixel maps: parent point `q` shows `f` of what the child map has at `q - d`,
+/-- Action on point-wise (optional) pixel maps: parent point `q` shows `f` of what the child map has at `q - d`,
 if `q` is in the region; nothing otherwise. -/
 def Xf.act (x : Xf) (m : Pt → Option Color) (q : Pt) : Option Color :=
   if x.G q = true then (m (q - x.d)).map x.f else none
